@@ -24,7 +24,7 @@ RULE = (
     "(xpath text, tree fingerprint)"
 )
 ASSUMPTIONS = ["reference evaluator encodes the documented semantics (virtual super-root; the root satisfies no field/index constraint)"]
-MUST_SEE = ["index_ge_10_match", "first_step_field", "root_matches", "two_anywhere", "nonempty", "relative_spelling", "index_only_step"]
+MUST_SEE = ["late_defined_class", "index_ge_10_match", "first_step_field", "root_matches", "two_anywhere", "nonempty", "relative_spelling", "index_only_step"]
 CONFIG = {
     "quick": {"shards": 16, "trees": 50, "xpaths": 70, "watchdog_s": 300},
     "thorough": {"shards": 32, "trees": 300, "xpaths": 120, "watchdog_s": 3000},
@@ -153,3 +153,28 @@ def run_shard(ctx):
             if k < 2 and case == 0 and ctx.shard == 0:
                 ctx.sample({"xpath": text, "expected_positions": [list(p.path) for p in exp]})
         ctx.count("trees")
+
+    # ---- a class defined after an xpath naming it was first looked at ----
+    name = f"{P}Late7"
+    try:
+        ASTXpath(f"//{name}")
+        early = "compiled"
+    except Exception as e:  # noqa: BLE001
+        early = type(e).__name__
+    src = f"@dataclass(frozen=True)\nclass {name}({P}Expr):\n    v: int = 0\n"
+    exec(compile(src, "<c07 late>", "exec", dont_inherit=True), U.module.__dict__)
+    late = U.module.__dict__[name]
+    ln = late(v=1)
+    root = U.cls[f"{P}List"](items=(ln, U.cls[f"{P}Leaf"](v=2)))
+    ctx.count("late_defined_class")
+    for text in (f"//{name}", f"/{P}List/@items {name}", f"@items[0]{name}"):
+        ctx.evaluations += 1
+        try:
+            xp = ASTXpath(text)
+            got = list(xp.findall(root))
+            m = [n for n in (root, ln, root.items[1]) if xp.match(root, n)]
+        except Exception as e:  # noqa: BLE001
+            ctx.violation("late-class", f"xpath naming a class defined after an earlier (rejected) look-up: {type(e).__name__}: {e}", {"xpath": text, "early": early})
+            continue
+        if [id(x) for x in got] != [id(ln)] or [id(x) for x in m] != [id(ln)]:
+            ctx.violation("late-class", "xpath naming a class defined after an earlier look-up does not find / match its instance", {"xpath": text, "early": early, "found": len(got), "matched": len(m)})
